@@ -65,20 +65,8 @@ theorem lineStartOf_eq {code : List Tok} {a : Nat} (ha : startsLine code a = tru
 
 /-! ## lines and segmentations -/
 
-/-- `l` lists the tokens `[a, b)` of one logical line -/
-structure LineOf (code : List Tok) (a b : Nat) (l : List Nat) : Prop where
-  lt : a < b
-  start : startsLine code a = true
-  inner : ∀ j, a < j → j < b → startsLine code j = false
-  head : l.head? = some a
-  last : l.getLast? = some (b - 1)
-  mem : ∀ x, x ∈ l ↔ a ≤ x ∧ x < b
-
-/-- `ls` are consecutive logical lines covering the tokens `[a, c)` -/
-inductive LineSeg (code : List Tok) : Nat → Nat → List (List Nat) → Prop
-  | nil (a : Nat) : LineSeg code a a []
-  | cons {a b c : Nat} {l : List Nat} {ls : List (List Nat)} :
-      LineOf code a b l → LineSeg code b c ls → LineSeg code a c (l :: ls)
+/- `LineOf`, `LineSeg` (one logical line / consecutive logical lines as lists of token indices) are
+vocabulary of `C01py.token_lines_logical`: `Spec/PyLayout.lean`. -/
 
 theorem LineOf.ne_nil {code : List Tok} {a b : Nat} {l : List Nat} (h : LineOf code a b l) :
     l ≠ [] := by
